@@ -64,6 +64,34 @@ def _diag_quadratic(alg, q):
     return quad or None
 
 
+def _unit_trades(c, a):
+    """a with even powers of one rotation coefficient w of a unit-norm block traded for the others
+    (w^2 = 1 - sum v_i^2, the validity precondition of a group input)"""
+    alg = c.alg
+    out = []
+    for i in c.inputs:
+        if i.kind != "G":
+            continue
+        try:
+            blocks = _rot_blocks(i.spec, i.names())
+        except Exception:
+            continue
+        for blk in blocks:
+            for w in blk:
+                ix = alg.gen_index[w]
+                if not any(m[ix] for m in a) or any(m[ix] % 2 for m in a):
+                    continue
+                rest = alg.R.one - sum((alg.gen[n] ** 2 for n in blk if n != w), alg.R.zero)
+                q = alg.R.zero
+                for m, coef in a.items():
+                    e = m[ix]
+                    m2 = list(m)
+                    m2[ix] = 0
+                    q = q + alg.R.term_new(tuple(m2), coef) * rest ** (e // 2)
+                out.append(q)
+    return out
+
+
 def decision_facts(c):
     """(upper, lower): bounds |gen| <= u, gen >= l (> 0) implied by the path's decisions.
     Recognised facts:  Q <= const (Q positive diagonal quadratic form),  R^k <= const,  R^k >= const
@@ -86,7 +114,7 @@ def decision_facts(c):
         if d.rel != "lt":
             continue
         raw = alg.P(d.b) - alg.P(d.a)            # fact: raw > 0 (val) or raw <= 0 (not val)
-        for p in [raw] + list(alg._alt_forms(alg.nf(raw))):
+        for p in [raw] + list(alg._alt_forms(alg.nf(raw))) + _unit_trades(c, alg.nf(raw)):
             e = p if d.val else -p                # fact: e > 0 or e >= 0
             const = _const_term(e)
             rest = e - alg.const(const)
@@ -379,8 +407,41 @@ def expand_trig(c, p, bounds):
         bounds[rc] = Fraction(1, 40320)
         subs.append((alg.gen[sn], S))
         subs.append((alg.gen[cn], Cc))
+    # A = atan2(y, x) small with (x, y) a unit pair of input variables:  y = sin A, x = cos A  (A-ATAN2), same expansion
+    names_ = list(alg.gen.keys())
+    for name, (atom, role) in list(alg.gen_atom.items()):
+        if atom.kind != "atan2":
+            continue
+        ab = bounds.get(name)
+        if ab is None or ab > Fraction(1, 10):
+            continue
+        y, x = atom.args
+        if not (len(y) == 1 and len(x) == 1 and y.LC == 1 and x.LC == 1 and sum(y.LM) == 1 and sum(x.LM) == 1):
+            continue
+        yn, xn = names_[list(y.LM).index(1)], names_[list(x.LM).index(1)]
+        if yn in alg.gen_atom or xn in alg.gen_atom or not alg.uses_gens(p, [yn, xn]):
+            continue
+        if not alg.is_zero(x * x + y * y - 1):
+            continue
+        key = ("taylor_atan2", name)
+        if key not in c.__dict__.setdefault("_taylor_cache", {}):
+            from engine.alg import Atom
+            A = alg.gen[name]
+            rs = alg.new_gen(("taylor_rem_sin", A))
+            rc = alg.new_gen(("taylor_rem_cos", A))
+            alg.gen_atom[rs] = (Atom("taylor_rem", (rs,), (A,), Fraction(1, 362880)), "rem")
+            alg.gen_atom[rc] = (Atom("taylor_rem", (rc,), (A,), Fraction(1, 40320)), "rem")
+            q = lambda n, d: alg.const(Fraction(n, d))
+            S = A - A ** 3 * q(1, 6) + A ** 5 * q(1, 120) - A ** 7 * q(1, 5040) + A ** 9 * alg.gen[rs]
+            Cc = (alg.R.one - A ** 2 * q(1, 2) + A ** 4 * q(1, 24) - A ** 6 * q(1, 720) + A ** 8 * alg.gen[rc])
+            c._taylor_cache[key] = (S, Cc, rs, rc)
+        S, Cc, rs, rc = c._taylor_cache[key]
+        bounds[rs] = Fraction(1, 362880)
+        bounds[rc] = Fraction(1, 40320)
+        subs.append((y, S))
+        subs.append((x, Cc))
+    subs = subs + _inverse_trig_subs(c, p, subs, bounds)
     if subs:
-        subs = subs + _inverse_trig_subs(c, p, subs, bounds)
         # size guard: a generator of exponent e replaced by an n-term polynomial multiplies the term count by ~n^e
         names = list(alg.gen.keys())
         width = {str(g): len(q) for (g, q) in subs}
@@ -411,9 +472,9 @@ def _inverse_trig_subs(c, p, subs, bounds):
     out = []
     cache = c.__dict__.setdefault("_taylor_inv_cache", {})
     for (base, iname) in list(alg.inv_gens):
-        if not alg.uses_gens(p, [iname]) or not alg.uses_gens(base, expanded):
+        if not alg.uses_gens(p, [iname]):
             continue
-        fb = base.compose(subs)
+        fb = base.compose(subs) if alg.uses_gens(base, expanded) else base
         if fb.is_zero or len(fb) > 200:
             continue
         mons = list(fb.keys())
@@ -429,6 +490,8 @@ def _inverse_trig_subs(c, p, subs, bounds):
         if c0 == 0:
             continue
         delta = (alg.const(c0) - rho) * alg.const(1 / c0)
+        if delta.is_zero:
+            continue
         db = poly_bound(alg, delta, bounds)
         if db is None or db > Fraction(1, 2):
             continue
@@ -489,7 +552,7 @@ def try_bound(c, res, tau):
             if os.environ.get("VERIF_TAYLOR_DEBUG"):
                 import sys
                 sys.stderr.write("ABOVE %s scale %g bound %.3g terms %d\n" % (c.path.key, scale, float(bnd), len(p)))
-                if len(p) <= 8:
+                if len(p) <= 20:
                     sys.stderr.write("   P = %s\n" % str(p)[:400])
                     names = list(alg.gen.keys())
                     for nm in sorted(set(names[i] for mon in p for i, e in enumerate(mon) if e)):
